@@ -88,30 +88,38 @@ def sqrfree (Nfact : Nat) (P : Poly α) : List (Poly α) :=
     let Z := psub F Y (diff F W)
     sqrfreeLoop F Nfact Nfact [] W Z
 
-/-- `is_prim_root(P, F)` (givpoly1proot.inl) -/
-def isPrimRoot (q : Nat) (P Fm : Poly α) : Bool :=
+/-- `is_prim_root(P, F)` (givpoly1proot.inl) with the list `L` of the distinct prime divisors of `q^n - 1`
+    (what `IntFactorDom::set` returns) as a parameter -/
+def isPrimRootL (q : Nat) (P Fm : Poly α) (L : List Nat) : Bool :=
   let A := pmod F P Fm
   if degree F (pgcd F A Fm) = 0 then
     let qp := q ^ (degree F Fm).toNat - 1
-    (primeFactors qp).all (fun l => ! isOneP F (powmod F A (qp / l) Fm))
+    L.all (fun l => ! isOneP F (powmod F A (qp / l) Fm))
   else false
+
+/-- `is_prim_root(P, F)`: the group order `q^n - 1` is an exact (multiprecision) integer -/
+def isPrimRoot (q : Nat) (P Fm : Poly α) : Bool :=
+  isPrimRootL F q P Fm (primeFactors (q ^ (degree F Fm).toNat - 1))
 
 /-- second phase of `order`: `for (--li; li != end; ++li) while (g % li == 0 && A^(g/li) == 1) g = g/li` -/
 def orderStrip (A Fm : Poly α) : Nat → Nat → Nat → Nat
   | 0, g, _ => g
   | fuel + 1, g, l => if l > 1 ∧ g % l = 0 ∧ isOneP F (powmod F A (g / l) Fm) then orderStrip A Fm fuel (g / l) l else g
 
-/-- `order(P, F)` (givpoly1proot.inl): 0 when `P` is not invertible modulo `F` -/
-def order (q : Nat) (P Fm : Poly α) : Nat :=
+/-- `order(P, F)` (givpoly1proot.inl) with the sorted prime list `L` of `q^n - 1` as a parameter: 0 when `P` is not
+    invertible modulo `F` -/
+def orderL (q : Nat) (P Fm : Poly α) (L : List Nat) : Nat :=
   let A := pmod F P Fm
   if degree F (pgcd F A Fm) = 0 then
     let qp := q ^ (degree F Fm).toNat - 1
-    let L := primeFactors qp
     -- first prime with A^(qp/l) = 1
     match L.dropWhile (fun l => ! isOneP F (powmod F A (qp / l) Fm)) with
     | [] => qp
     | l :: rest => (l :: rest).foldl (fun g li => orderStrip F A Fm (g.log2 + 1) g li) (qp / l)
   else 0
+
+def order (q : Nat) (P Fm : Poly α) : Nat :=
+  orderL F q P Fm (primeFactors (q ^ (degree F Fm).toNat - 1))
 
 /-! ### the irreducible-polynomial searches: loops over candidates -/
 
